@@ -1,11 +1,11 @@
 (** C14 — each v1 / web-UI handler, through StoreManager, answers and effects exactly what the specification of its operation on the abstract store says (list = the mailbox in arrival order, purge empties exactly that mailbox) *)
 From IV Require Import Base.Bytes Base.BytesFacts Model.StoreSpec Model.Rest Proofs.Rest.
-Theorem api_handlers_reflect_store : forall mfa cfg,
-  (forall st h name id num body out, spec_handler mfa cfg st h name id num body = Some out -> run_handler mfa cfg st h name id num body = out) /\
+Theorem api_handlers_reflect_store : forall mfa cfg srcok,
+  (forall st h name id num body out, spec_handler mfa cfg srcok st h name id num body = Some out -> run_handler mfa cfg srcok st h name id num body = out) /\
   (forall st name mb, mfa name = Some mb ->
-     spec_handler mfa cfg st HList name [] [] BBad = Some (st, (S200, PList mb (map view_of (box mb (live st)))))) /\
+     spec_handler mfa cfg srcok st HList name [] [] BBad = Some (st, (S200, PList mb (map view_of (box mb (live st)))))) /\
   (forall st name mb, mfa name = Some mb ->
-     exists st', spec_handler mfa cfg st HPurge name [] [] BBad = Some (st', (S200, POk)) /\
+     exists st', spec_handler mfa cfg srcok st HPurge name [] [] BBad = Some (st', (S200, POk)) /\
                  box mb (live st') = [] /\ forall mb', str_eqb mb mb' = false -> box mb' (live st') = box mb' (live st)).
-Proof. intros mfa cfg. split; [exact (handler_meets_spec mfa cfg)|split; [exact (spec_list_is_box mfa cfg)|exact (spec_purge_empties mfa cfg)]]. Qed.
+Proof. intros mfa cfg srcok. split; [exact (handler_meets_spec mfa cfg srcok)|split; [exact (spec_list_is_box mfa cfg srcok)|exact (spec_purge_empties mfa cfg srcok)]]. Qed.
 Print Assumptions api_handlers_reflect_store.
